@@ -16,6 +16,11 @@ from . import sym as S
 from .poly import Conv, Frac, Poly, Unsupported, BITS, EMASK
 
 
+import os as _os
+
+_DEBUG = bool(_os.environ.get("VERIF_DEBUG"))
+
+
 class Inconclusive(Exception):
     pass
 
@@ -348,6 +353,8 @@ class Problem:
                 r["verdict"] = "unknown"
                 r["detail"] = "numeric evaluation failed: %r" % (e,)
             r["seconds"] = round(time.time() - t1, 4)
+            if _DEBUG:
+                print("  [%s] %s: %s %.2fs terms=%s groups=%s %s" % (self.name, g.name, r["verdict"], r["seconds"], r.get("residual_terms"), r.get("groups"), r.get("detail", "")[:100]), flush=True)
             self.stats["queries"] += 1
             self.stats[r["verdict"]] = self.stats.get(r["verdict"], 0) + 1
             results.append(r)
@@ -426,8 +433,11 @@ class Problem:
 
     def _solve_eq(self, g, conv, zr, rnd, allvars, r):
         t0 = time.time()
-        fa, fb = conv.convert(g.a), conv.convert(g.b)
-        resid = fa - fb
+        # a - b is flattened through additions and summed per denominator: if every group vanishes the
+        # residual is zero without ever multiplying out the common denominator (DESIGN.md 1.3, decomposition)
+        groups = conv.convert_grouped([(Fraction(1), g.a), (Fraction(-1), g.b)])
+        resid = conv.zero if not groups else conv.total(groups)
+        r["groups"] = len(groups)
         self.stats["nf_s"] += time.time() - t0
         r["residual_terms"] = len(resid.n.t) if not resid.is_zero() else 0
         env, diff, scale = self._float_check(g, conv, resid, rnd, allvars)
